@@ -3,6 +3,8 @@ package lib
 import (
 	"context"
 	"errors"
+	"runtime"
+	"strings"
 	"sync"
 	"sync/atomic"
 	"time"
@@ -384,3 +386,20 @@ func WaitUntil(timeout time.Duration, cond func() bool) bool {
 
 // Live is the liveness bound: far above normal latency (µs–ms).
 const Live = 10 * time.Second
+
+// PubSubGoroutines counts goroutines that have GoChannel or subscriber-decorator frames.
+func PubSubGoroutines() (int, string) {
+	buf := make([]byte, 8<<20)
+	buf = buf[:runtime.Stack(buf, true)]
+	n := 0
+	var sample string
+	for _, g := range strings.Split(string(buf), "\n\n") {
+		if (strings.Contains(g, "pubsub/gochannel.") || strings.Contains(g, "messageTransformSubscriberDecorator")) && !strings.Contains(g, "lib.PubSubGoroutines") {
+			n++
+			if sample == "" {
+				sample = g
+			}
+		}
+	}
+	return n, sample
+}
